@@ -487,7 +487,9 @@ func (dp *DPoVP) LoadTopCandidates(blockHash common.Hash) types.DeputyNodes {
 		acc := dp.am.GetAccount(n.GetAddress())
 		candidate := acc.GetCandidate()
 		strID := candidate[types.CandidateKeyNodeID]
-		dn := types.NewDeputyNode(acc.GetVotes(), uint32(i), n.GetAddress(), strID)
+		// The votes must be the ones the list was ranked by (the state of blockHash). The account manager holds the state after the snapshot block's own
+		// transactions, and if they change a vote the term record would get ranks which conflict with the votes and could not be loaded
+		dn := types.NewDeputyNode(n.GetTotal(), uint32(i), n.GetAddress(), strID)
 		result = append(result, dn)
 	}
 	return result
